@@ -19,7 +19,7 @@ META = {
              "with >= 1 null-offset edge"),
     "required": ["monitor:type-roundtrip", "monitor:value-roundtrip", "monitor:op-roundtrip",
                  "monitor:param-roundtrip", "monitor:arg-roundtrip", "monitor:sugar-eq",
-                 "monitor:foreign-doc", "monitor:doc-route", "feature:null-offset-edge", "feature:funcdefn-params",
+                 "monitor:foreign-doc", "monitor:foreign-links-in-memory", "feature:order-edge-at-offset-0", "monitor:doc-route", "feature:null-offset-edge", "feature:funcdefn-params",
                  "feature:block-delta", "feature:custom-description", "feature:extop"],
     "reach": ["hugr._serialization.ops:FuncDefn.deserialize", "hugr._serialization.ops:DataflowBlock.deserialize",
               "hugr._serialization.ops:ExtensionOp.deserialize", "hugr._serialization.tys:Opaque.deserialize",
@@ -304,7 +304,7 @@ def gen_op(r, depth):
         return {"k": k, "name": r.choice(["A", "ünï", ""]), "ty": g.ty(depth)}
     c = c06.gen_case(r, depth, kind=k)
     if k in ("DFG", "TailLoop", "DataflowBlock"):
-        c["delta"] = r.sample(REQS, r.choice([0, 1, 2]))
+        c["delta"] = r.sample(REQS, r.choice([0, 1, 2, 3]))
     if k == "Custom":
         c["desc"] = r.choice(["", "a description", "ünï ✓"])
         c["ext"] = r.choice(["some.ext", "", "verif.test"])
